@@ -29,7 +29,7 @@ func TestPropBitmap(t *testing.T) {
 		g := pools.GenGeom(true, true).Draw(rt, "geometry")
 		f := pools.BitmapFactory(g.CIDR, g.Unit, g.Class)
 		w := []int{8, 4, 1, 2, 3, 2}
-		if vstat.IsListed("C05/bitmap/stats-mismatch/after-setAlloc") && rapid.IntRange(0, 3).Draw(rt, "exercise-setAlloc") != 0 {
+		if vstat.IsListed("C05/bitmap/stats-mismatch/after-setAlloc") && rapid.Bool().Draw(rt, "avoid-setAlloc") {
 			w[4] = 0
 		}
 		ops := pools.GenOps(kinds, w, len(subs), 1, 40).Draw(rt, "ops")
@@ -44,6 +44,11 @@ func TestPropEpoch(t *testing.T) {
 		cidr := pools.GenEpochNet(true).Draw(rt, "net")
 		grace := uint64(rapid.SampledFrom([]int{0, 1, 1, 1, 1, 1, 1, 1, 1, 1, 2, 3}).Draw(rt, "grace"))
 		f := pools.EpochFactory(cidr, grace, "epoch")
+		if !pools.EpochConfigOK(cidr, grace) {
+			// the constructor rejects this grace period: outside the input domain, nothing to decide
+			vstat.Case(false, 0, nil, "impl:epoch", "cfg:rejected-by-constructor")
+			return
+		}
 		// up to 12 advances per history (the 2-bit generation wraps after 4)
 		ops := pools.GenOps(kinds, []int{4, 2, 5, 7}, len(subs), 8, 40).Draw(rt, "ops")
 		cs := true
